@@ -10,6 +10,7 @@ import (
 	"net"
 	"os"
 	"path/filepath"
+	"strings"
 	"sync"
 	"time"
 
@@ -209,6 +210,13 @@ type ParamSpec struct {
 	ClientIP string
 	TransID  string
 	CAAlgo   int
+	// further client claims carried by the request message
+	Touch2SSH     bool
+	TSFirefighter bool
+	TSHosts       string
+	TSTime        int64
+	Exts          map[string]any
+	SigAlgo       int
 	// Via: direct (struct literal) | env (through csr.NewReqParam)
 	Via string
 }
@@ -216,7 +224,15 @@ type ParamSpec struct {
 // BuildParam constructs the request parameters either directly or through NewReqParam.
 func BuildParam(s ParamSpec) (*csr.ReqParam, error) {
 	if s.Via == "env" {
-		cmd, _ := json.Marshal(map[string]any{"ifVer": 7, "username": s.ReqUser, "hostname": s.ReqHost, "sshClientVersion": "8.1", "hardKey": s.HardKey, "caPubKeyAlgo": s.CAAlgo})
+		m := map[string]any{"ifVer": 7, "username": s.ReqUser, "hostname": s.ReqHost, "sshClientVersion": "8.1", "hardKey": s.HardKey, "caPubKeyAlgo": s.CAAlgo,
+			"touch2SSH": s.Touch2SSH, "signatureAlgo": s.SigAlgo}
+		if s.TSFirefighter || s.TSHosts != "" || s.TSTime != 0 {
+			m["touchlessSudo"] = map[string]any{"isFirefighter": s.TSFirefighter, "hosts": s.TSHosts, "time": s.TSTime}
+		}
+		if s.Exts != nil {
+			m["exts"] = s.Exts
+		}
+		cmd, _ := json.Marshal(m)
 		env := map[string]string{"SSH_ORIGINAL_COMMAND": string(cmd), "LOGNAME": s.LogName, "SSH_CONNECTION": s.ClientIP + " 51234 10.0.0.1 22"}
 		return csr.NewReqParam(func(k string) string { return env[k] }, func() []string {
 			return []string{"gensign", "-c", "/usr/bin/gensign " + s.Policy + " " + regular.HandlerName}
@@ -225,7 +241,9 @@ func BuildParam(s ParamSpec) (*csr.ReqParam, error) {
 	return &csr.ReqParam{
 		NamespacePolicy: common.NamespacePolicy(s.Policy), HandlerName: regular.HandlerName, ClientIP: s.ClientIP, LogName: s.LogName,
 		ReqUser: s.ReqUser, ReqHost: s.ReqHost, TransID: s.TransID,
-		Attrs: &message.Attributes{IfVer: 7, Username: s.ReqUser, Hostname: s.ReqHost, SSHClientVersion: "8.1", HardKey: s.HardKey, CAPubKeyAlgo: x509.PublicKeyAlgorithm(s.CAAlgo)},
+		Attrs: &message.Attributes{IfVer: 7, Username: s.ReqUser, Hostname: s.ReqHost, SSHClientVersion: "8.1", HardKey: s.HardKey, CAPubKeyAlgo: x509.PublicKeyAlgorithm(s.CAAlgo),
+			Touch2SSH: s.Touch2SSH, SignatureAlgo: x509.SignatureAlgorithm(s.SigAlgo), Exts: s.Exts,
+			TouchlessSudo: &message.TouchlessSudo{IsFirefighter: s.TSFirefighter, Hosts: s.TSHosts, Time: s.TSTime}},
 	}, nil
 }
 
@@ -257,7 +275,7 @@ type FakeHandler struct {
 	// RejectKind: "" / authn (HandlerAuthN) | disabled | invalid | unknown | untyped | panic-typed
 	RejectKind string
 	Log        *HandlerLog
-	PanicIn string // name | authenticate | generate | csrs | addcerts
+	PanicIn    string // name | authenticate | generate | csrs | addcerts
 	// Agent, when set, makes Generate create NKeys real agent keys (each with NReqs requests).
 	Agent   agent.Agent
 	NKeys   int
@@ -348,10 +366,14 @@ func (h *FakeHandler) Generate(p *csr.ReqParam) ([]csr.AgentKey, error) {
 		pubText := string(ssh.MarshalAuthorizedKey(SSHPub("ed25519c")))
 		if h.Agent != nil {
 			opt := agssh.DefaultKeyOpt
-			opt.CertLabel = "verif." + h.ID + "-cert"
+			// one label per agent key ("an agent key operates certificates for one private key only");
+			// its refresh filter selects that label, plus whatever the scenario declares stale
+			own := fmt.Sprintf("verif.%s.k%d-", h.ID, i)
+			opt.CertLabel = own + "cert"
 			opt.PrivateKeyValiditySec = 7200
-			if h.Refresh != nil {
-				opt.KeyRefreshFilter = h.Refresh
+			extra := h.Refresh
+			opt.KeyRefreshFilter = func(k *agent.Key) bool {
+				return strings.Contains(k.Comment, own) || (extra != nil && extra(k))
 			}
 			ak, err := agssh.NewSSHAgentKeyWithOpt(h.Agent, opt)
 			if err != nil {
